@@ -99,7 +99,7 @@ def Sim.enterStop (s : Sim) (seq : List SStep) (wait : Bool) : CS :=
 /-- a handled signal on a frontend thread while the stop sequence is in state `c` (`Exit.signalDuringStop`) -/
 def Sim.signalInStop (s : Sim) (c : CS) (wait : Bool) (sg : Sig) (who : String) (infoOn : Bool) : Sim :=
   if s.final.isSome || s.parked then s else
-  let r := signalDuringStop wait infoOn true sg false c c
+  let r := signalDuringStopG Extracted.flushEndsWhenBackendGone wait infoOn true sg false c c
   let acts := onSignal (c.ctx sg false)
   let cls := if !c.idSet then "sig-inside-stop-id-cleared" else if c.serving then "sig-inside-stop-served" else "sig-inside-stop-after-last-look"
   let s1 := { s with entries := s.entries + 1, classes := s.classes ++ [cls],
@@ -147,6 +147,18 @@ def Sim.op (P : LParams) (logger reraise infoOn : Bool) (s : Sim) (op : String) 
       match s.conc with
       | some c => if logger && reraise then s.signalInStop c wait sg "main" infoOn else s.signal P sg "main" logger reraise infoOn
       | none => s.signal P sg "main" logger reraise infoOn
+    | none => s
+  | ["ksig", nm, spec] => match Sig.ofName nm with
+    -- process-directed: the masks set up by the harness leave one receiver (`m`, `t<k>`, `b`) or nobody (`none`: the
+    -- signal stays pending, the script goes on); `any`: the kernel chooses — Linux tries the main thread first
+    | some sg =>
+      if spec == "none" then { s with cont := s.cont + 1, classes := s.classes ++ ["kill-blocked-everywhere"] }
+      else
+        let who := if spec == "b" then "backend" else if spec == "m" || spec == "any" then "main" else "extra"
+        -- (`Sim.signal` builds the context from the life-cycle state; for a running handler cycle it is `Exit.Receiver.ctx`
+        --  of the receiver's class: the same calls for every frontend class, the backend branch on the backend thread)
+        let s1 := s.signal P sg who logger reraise infoOn
+        { s1 with classes := s1.classes ++ ["kill-" ++ spec.take 1] }
     | none => s
   | ["tsig", _, nm] => match Sig.ofName nm with
     | some sg =>
